@@ -215,6 +215,20 @@ CLAIMED["C18"] = dict(
     technique="CBMC contract harnesses on the real weight computation / assembly with marker and recording contracts",
 )
 
+CLAIMED["C19"] = dict(
+    level="proof",
+    text="NARROW (structural clauses of the LU kernel; backward stability itself is not decidable here).  On the "
+         "real _vnacommon_lu: the pivot of a column is the row largest relative to its own row maximum (scaled "
+         "partial pivoting, the documented row_scale rule) - exhaustively for all 256 2x2 matrices over "
+         "{1,2,3,100}; multiplying rows by powers of two (2^-30..2^30, 49 combinations) leaves the pivot sequence "
+         "unchanged; row_index is a permutation; for every finite 2x2 matrix with a zero first column or row the "
+         "returned determinant is 0 or non-normal, so the call sites' singularity test fires (full double domain).",
+    note="residual size, QR orthogonality, least-squares minimality, n > 2, 'astronomically large output', and that "
+         "every call site tests the determinant: NOT covered; complex compiled as double",
+    design="DESIGN.md 3 C19, 8.18",
+    technique="CBMC contract harnesses on the real _vnacommon_lu (pivot rule, row-scaling invariance, zero pivot)",
+)
+
 NA = {
     "C02": "iterative floating-point convergence (Levenberg-Marquardt / TRL) has no contract CBMC can discharge; see DESIGN.md 3 C02",
     "C06": "property is about bytes written by fprintf and read by an independent reader; no CBMC model of formatted I/O (a stub would be the oracle); DESIGN.md 3 C06",
@@ -224,7 +238,6 @@ NA = {
 }
 
 NOT_YET = {
-    "C19": "backward stability is a floating-point statement outside contract verification; the planned structural claims on _vnacommon_lu (row scaling, pivot rule, zero pivot) were not built (DESIGN 8.12)",
 }
 for k in CLAIMED:
     NOT_YET.pop(k, None)
